@@ -30,13 +30,32 @@ def dispatch (op : String) (args : List Sx) (impl : Sx) : Option Outcome :=
   else if op.startsWith "eval." then evalG B op args impl
   else none
 
+/-- C05 oracle on the IMPLEMENTATION's answer: if it is a diagram, is it (deeply) well-formed, and
+    does it have the same source/target type as the model's answer? -/
+def wfType (model impl : Sx) : String :=
+  match unOk impl with
+  | some x =>
+    match (dec x : Option F), (dec x : Option LF) with
+    | some f, _ =>
+      let ty := match (unOk model).bind (dec (α := F)) with
+        | some m => if m.source.isOk && (enc m.source == enc f.source) && (enc m.target == enc f.target) then "ok" else "bad"
+        | none => "na"
+      s!"wf={if f.wf then "ok" else "bad"} type={ty}"
+    | _, some f =>
+      let ty := match (unOk model).bind (dec (α := LF)) with
+        | some m => if (enc m.source == enc f.source) && (enc m.target == enc f.target) then "ok" else "bad"
+        | none => "na"
+      s!"wf={if f.wf then "ok" else "bad"} type={ty}"
+    | _, _ => "wf=na type=na"
+  | none => "wf=na type=na"
+
 def verdictLine (line : String) : String :=
   match Sx.parseLine line with
   | some [.n id, .s op, .l args, impl] =>
     match dispatch op args impl with
     | some o =>
       if o.agree then s!"{id} ok {op} {o.rel}"
-      else s!"{id} DIFF {op} rel={o.rel} decisive={o.decisive} class={o.klass} model={o.model} impl={impl} note={o.note}"
+      else s!"{id} DIFF {op} rel={o.rel} decisive={o.decisive} class={o.klass} {wfType o.model impl} model={o.model} impl={impl} note={o.note}"
     | none => s!"{id} BAD {op} unknown-op-or-malformed-args"
   | _ => "0 BAD ? unparsable-line"
 
